@@ -211,6 +211,7 @@ impl http_serve::Entity for SimEntity {
             empties_to_emit: 0,
             had_pending: false,
             extra_emitted: false,
+            extra_more: 0,
         })
     }
 
@@ -250,6 +251,7 @@ pub struct SimStream {
     empties_to_emit: u32,
     had_pending: bool,
     extra_emitted: bool,
+    extra_more: u32,
 }
 
 impl SimStream {
@@ -354,6 +356,18 @@ impl Stream for SimStream {
                                 this.fire(&mut st, kind);
                                 let k = 1 + tape.draw(3) as u64;
                                 st.chunks += 1;
+                                // The overrun may be followed by further items (some empty).
+                                this.empties_to_emit = 0;
+                                this.extra_more = tape.draw(3);
+                                return Poll::Ready(Some(Ok(SimData::ent(
+                                    this.seed,
+                                    this.start.wrapping_add(this.pos),
+                                    k,
+                                ))));
+                            }
+                            if this.extra_more > 0 {
+                                this.extra_more -= 1;
+                                let k = [0u64, 0, 1][tape.draw(3) as usize];
                                 return Poll::Ready(Some(Ok(SimData::ent(
                                     this.seed,
                                     this.start.wrapping_add(this.pos),
